@@ -369,9 +369,9 @@ def run(p: Program, rep: Report, tier: str) -> None:
     rep.require_instances("R1.4", 20)
 
     # ---------------------------------------------------------------- R1.6 decoder input discipline
-    from .mp_common import file_field_decision, header_line_split, parse_header_splits_at_first_equals, parseparam_quote_parity, receive_data_discipline
+    from .mp_common import file_field_decision, header_blank_lines_skipped, header_line_split, parse_header_splits_at_first_equals, parseparam_quote_parity, receive_data_discipline, safe_decode_declared_first
 
-    for fnc in (receive_data_discipline, header_line_split, file_field_decision, parseparam_quote_parity, parse_header_splits_at_first_equals):
+    for fnc in (receive_data_discipline, header_line_split, header_blank_lines_skipped, safe_decode_declared_first, file_field_decision, parseparam_quote_parity, parse_header_splits_at_first_equals):
         for kind, fn_, node, cons, msg, facts in fnc(p, rep):
             if kind == "ok":
                 rep.ok("R1.6", msg)
@@ -379,7 +379,7 @@ def run(p: Program, rep: Report, tier: str) -> None:
                 rep.undecide("R1.6", msg)
             else:
                 rep.violation("R1.6", construct(fn_, text=cons), where(fn_, node), msg, path_facts=facts)
-    rep.require_instances("R1.6", 6)
+    rep.require_instances("R1.6", 8)
 
     # ---------------------------------------------------------------- R1.5 request plumbing
     for side, helper in (("wsgi", "parse_stream"), ("asgi", "parse_async_stream")):
